@@ -133,6 +133,47 @@ type groundRead struct {
 	arr  *Term
 	idx  *Term
 	base string
+	row  string   // exactRow(arr), precomputed for the ground reads of a context
+	lin  *linForm // linearize(idx), precomputed likewise
+}
+
+// solveIndexLin is solveIndex with both sides already linearized: le is e without its ±k part.
+func solveIndexLin(le *linForm, neg bool, gl *linForm) *linForm {
+	res := newLin()
+	sign := int64(1)
+	if neg {
+		sign = -1
+	}
+	bs := big.NewInt(sign)
+	for key, co := range gl.coef {
+		res.coef[key] = new(big.Int).Mul(bs, co)
+		res.atoms[key] = gl.atoms[key]
+	}
+	res.c.Mul(bs, gl.c)
+	ns := big.NewInt(-sign)
+	for key, co := range le.coef {
+		res.addAtom(le.atoms[key], new(big.Int).Mul(ns, co))
+	}
+	res.c.Sub(res.c, new(big.Int).Mul(bs, le.c))
+	return res
+}
+
+// key identifies the linear form without building its term.
+func (l *linForm) key() string {
+	keys := make([]string, 0, len(l.coef))
+	for k := range l.coef {
+		keys = append(keys, k)
+	}
+	sort.Strings(keys)
+	var sb strings.Builder
+	for _, k := range keys {
+		sb.WriteString(l.coef[k].String())
+		sb.WriteByte('*')
+		sb.WriteString(k)
+		sb.WriteByte('+')
+	}
+	sb.WriteString(l.c.String())
+	return sb.String()
 }
 
 func collectGroundReads(t *Term, bound map[string]bool, out *[]groundRead, seen map[string]bool) {
@@ -486,20 +527,41 @@ func (c *qfCtx) candidates(q *Term) []*Term {
 	cands := map[string]*Term{}
 	rank := map[string]int{} // 0: read of the same row; 1: read of another row of the same heap
 	var order []string
+	kk := k.String()
+	byLin := map[string]string{}
 	for _, br := range brs {
 		bb := baseArray(br.arr).String()
 		ex := exactRow(br.arr)
-		for _, gr := range c.reads {
+		le := newLin()
+		linearize(br.idx, big.NewInt(1), le)
+		kc, ok := le.coef[kk]
+		if !ok || !kc.IsInt64() || (kc.Int64() != 1 && kc.Int64() != -1) {
+			continue
+		}
+		neg := kc.Int64() == -1
+		delete(le.coef, kk)
+		delete(le.atoms, kk)
+		for i := range c.reads {
+			gr := &c.reads[i]
 			if gr.base != bb {
 				continue
 			}
-			t := solveIndex(br.idx, k, gr.idx)
-			if t == nil {
-				continue
+			if gr.lin == nil {
+				gr.lin = newLin()
+				linearize(gr.idx, big.NewInt(1), gr.lin)
+				gr.row = exactRow(gr.arr)
 			}
-			key := t.String()
+			rl := solveIndexLin(le, neg, gr.lin)
+			lk := rl.key()
+			var t *Term
+			key, seen := byLin[lk]
+			if !seen {
+				t = rl.term()
+				key = t.String()
+				byLin[lk] = key
+			}
 			rk := 1
-			if exactRow(gr.arr) == ex {
+			if gr.row == ex {
 				rk = 0
 			}
 			if old, ok := cands[key]; !ok {
@@ -641,6 +703,18 @@ func qfWeakenOrder(assumes []*Term, goal *Term, rounds int, forward bool) ([]*Te
 	out := assumes
 	g := goal
 	prev := -1
+	if rounds == 0 {
+		// the cheapest weakening: no instances at all (universal assumptions become true, the goal is skolemized)
+		c := &qfCtx{sk: sk, cap: 6000, candCap: 1}
+		next := make([]*Term, len(assumes))
+		if goal != nil {
+			g = c.qf(goal, -1, 0)
+		}
+		for i := range assumes {
+			next[i] = c.qf(assumes[i], +1, 0)
+		}
+		return next, g
+	}
 	for round := 0; round < rounds; round++ {
 		c := &qfCtx{sk: sk, cap: 6000}
 		c.nsk = len(sk)
